@@ -894,8 +894,18 @@ def run_check(ctx, mod, argv):
             if _ALARM["fired"]:
                 setup_hang()
             else:
+                # outside the generated cases (a probe for a known finding, a summary, set-up): an exception from
+                # inside the library, or the harness tripping over what the library returned, means the check can
+                # no longer establish the correspondence on this tree -- reported, with the traceback, as such
                 traceback.print_exc()
-                raise Infra("harness crashed (see traceback)")
+                e = sys.exc_info()[1]
+                lf = library_failure(e, [prop_id], "a call made by the check outside its generated cases")
+                tb = traceback.extract_tb(e.__traceback__)
+                what = lf.what if lf is not None else (
+                    f"[{prop_id}] the harness could not interpret what the implementation returned (outside the "
+                    f"generated cases): {type(e).__name__}: {str(e)[:160]} (at {os.path.basename(tb[-1].filename)}:"
+                    f"{tb[-1].lineno} in {tb[-1].name})")
+                ctx.failures.append((Failure("corr", what), {"stratum": "direct"}))
 
     # 4. classify
     oracle_fails = [(f, c) for f, c in ctx.failures if f.kind == "oracle"]
